@@ -674,6 +674,31 @@ fn replay_case(case: &Value) -> Value {
         }
     }
 
+    // ---- the second encoder entry point: into_raw() encodes the payload on its own, the raw packet is
+    // then encoded like any other; the bytes must be the same and a model without a wire form must
+    // still be rejected on this route
+    let via_raw: Option<Result<Result<Vec<u8>, String>, String>> = match &pkt {
+        Pkt::Udp(p) => Some(catch(|| p.clone().into_raw().try_encode_to_vec().map_err(|e| e.to_string()))),
+        Pkt::Scmp(p) => Some(catch(|| p.clone().into_raw().try_encode_to_vec().map_err(|e| e.to_string()))),
+        Pkt::Raw(_) => None,
+    };
+    match via_raw {
+        Some(Err(msg)) => pv(&mut pvs, format!("Panic:into_raw:{}", if rep { "representable" } else { why.as_str() }), format!("into_raw()/try_encode_to_vec panicked: {msg}")),
+        Some(Ok(Ok(b))) => {
+            // (an "unknown" SCMP model with a known type number becomes a legitimate raw packet: not judged here)
+            if !rep && why != "scmptype" {
+                pv(&mut pvs, format!("Unrepresentable:{why}:via-into_raw"),
+                   format!("model has no wire form ({why}) but into_raw().try_encode_to_vec() produced {} bytes", b.len()));
+            } else if let (true, Ok(Ok(v))) = (rep, &obs.to_vec) {
+                if &b != v {
+                    let i = b.iter().zip(v.iter()).position(|(x, y)| x != y).unwrap_or(b.len().min(v.len()));
+                    pv(&mut pvs, format!("IntoRaw:{kind}:differs"), format!("into_raw().try_encode_to_vec() differs from try_encode_to_vec() at byte {i} ({} vs {} bytes)", b.len(), v.len()));
+                }
+            }
+        }
+        _ => {}
+    }
+
     json!({
         "built": true, "rep": rep, "accepted": accepted, "valid": valid_ok, "kind": kind,
         "pv": pvs, "drift": drift,
